@@ -500,8 +500,12 @@ func c17Capacity(c *Ctx) {
 		g := f.Graph()
 		ok := false
 		for _, cs := range g.Conds(func(e ast.Expr) bool {
-			s := core.ExprStr(e)
-			return strings.Contains(s, "count") && strings.Contains(s, ">")
+			be, isB := e.(*ast.BinaryExpr)
+			if !isB {
+				return false
+			}
+			_, op, _, isCmp := core.Oriented(be, func(x ast.Expr) bool { return strings.Contains(core.ExprStr(x), "count") })
+			return isCmp && (op == token.GTR || op == token.GEQ)
 		}) {
 			if good, _ := onlyErrorReturns(g, core.Point{B: cs.True, I: 0}, nil); good {
 				ok = true
@@ -592,11 +596,27 @@ func c17Unknown(c *Ctx) {
 						good, bad = onlyErrorReturns(g, core.Point{B: b, I: 0}, nil)
 						if !good {
 							// ignore-set idiom: `if _, ignore := set[T]; !ignore { return err }`
-							if len(cc.Body) == 1 {
-								if is, ok := cc.Body[0].(*ast.IfStmt); ok && strings.Contains(core.ExprStr(is.Cond), "ignore") && len(is.Body.List) == 1 {
-									if rs, ok := is.Body.List[0].(*ast.ReturnStmt); ok && len(rs.Results) == 1 && core.ExprStr(rs.Results[0]) != "nil" {
-										good = true
+							var ifs []*ast.IfStmt
+							plain := true
+							for _, st := range cc.Body {
+								switch x := st.(type) {
+								case *ast.IfStmt:
+									ifs = append(ifs, x)
+								case *ast.ExprStmt, *ast.AssignStmt, *ast.DeclStmt, *ast.IncDecStmt:
+								default:
+									plain = false
+								}
+							}
+							if len(ifs) == 1 && plain {
+								is := ifs[0]
+								var rets []*ast.ReturnStmt
+								for _, st := range is.Body.List {
+									if rs, ok := st.(*ast.ReturnStmt); ok {
+										rets = append(rets, rs)
 									}
+								}
+								if strings.Contains(core.ExprStr(is.Cond), "ignore") && is.Else == nil && len(rets) == 1 && len(rets[0].Results) == 1 && core.ExprStr(rets[0].Results[0]) != "nil" && is.Body.List[len(is.Body.List)-1] == ast.Stmt(rets[0]) {
+									good = true
 								}
 							}
 						}
